@@ -442,6 +442,25 @@ def make_huge_id_hr_spec(rng):
             'llq': list(plq), 'lt': list(puq), 'luq': list(puq), 'lec': lec, 'shape': 'huge_ids_hr'}
 
 
+def make_zero_student_spec(rng):
+    """An instance whose header announces no students at all (projects and lecturers exist)."""
+    na = rng.choice([2, 3])
+    np_ = rng.randint(1, 3)
+    if na == 2:
+        puq = [rng.choice([0, 1, 2]) for _ in range(np_)]
+        plq = [rng.choice([0, 0, 1]) if u else 0 for u in puq]
+        return {'na': 2, 'ns': 0, 'np': np_, 'nl': np_, 'st': [], 'plq': plq, 'puq': puq, 'plec': list(range(1, np_ + 1)),
+                'llq': list(plq), 'lt': list(puq), 'luq': list(puq), 'lec': [[] for _ in range(np_)], 'shape': 'zero_students'}
+    nl = rng.randint(1, 2)
+    puq = [rng.choice([0, 1, 2]) for _ in range(np_)]
+    plq = [rng.choice([0, 0, 1]) if u else 0 for u in puq]
+    luq = [rng.choice([0, 1, 2]) for _ in range(nl)]
+    lt = [rng.randint(0, u) for u in luq]
+    llq = [rng.choice([0, 0, t]) for t in lt]
+    return {'na': 3, 'ns': 0, 'np': np_, 'nl': nl, 'st': [], 'plq': plq, 'puq': puq, 'plec': [rng.randint(1, nl) for _ in range(np_)],
+            'llq': llq, 'lt': lt, 'luq': luq, 'lec': [[] for _ in range(nl)], 'shape': 'zero_students'}
+
+
 def make_long_list_spec(rng):
     """Two or three students, one of whom ranks 10 to 13 projects (ranks with two digits: rank 10 sorts before
     rank 2 as a string); the others compete for that student's first choices."""
